@@ -17,9 +17,9 @@ CHECKS = {
                 note="Reference encoders refber.py / refenc.rs and reference crypto refusm.py (self-tested on FIPS/RFC vectors) are trusted."),
     "C03": dict(level="exploration", tech="property-based history generation (Hypothesis) with a strict independent BER decoder as oracle on every emitted datagram",
                 text="Histories of API calls over 1..3 pooled-buffer sessions; each emitted datagram must strictly decode to exactly the requested call (version, credentials, USM state, PDU type, ids, OIDs in order bound to NULL).",
-                note="Strict reference decoder refber.parse_message; v3 sessions here have a known engine id."),
+                note="Strict reference decoder refber.parse_message; a second stage covers v3 sessions of the real clients that discover their engine id (incl. lost first probe), session options left to their defaults and version autodetection."),
     "C04": dict(level="fault_enumeration", tech="property-based fault-script generation (Hypothesis) against a reference FIFO model of the socket queue; thorough tier enumerates all fault words of length <=3",
-                text="Fault scripts (loss, duplication, delay, reordering, field rewriting incl. ids equal modulo 2^31/2^32, truncation) over 1..4 requests are replayed against the real socket; every call outcome must equal a reference FIFO model computed from the ids seen on the wire.",
+                text="Fault scripts (loss, duplication, delay, reordering, field rewriting incl. ids equal modulo 2^31/2^32, truncation) over 1..4 requests are replayed against the real socket; every call outcome must equal a reference FIFO model computed from the ids seen on the wire; through the sync / async clients the datagrams of a burst arrive back to back or a few ms apart.",
                 note="Assumes FIFO loopback UDP; classification uses the independent reference decoder."),
     "C05": dict(level="exploration", tech="property-based testing (Hypothesis): generated MIBs served by an RFC 3416 model agent; oracle is an arc-tuple model of the subtree",
                 text="Generated MIBs (prefix trees with multi-octet arcs), bases, max_repetitions, agent caps, versions and drivers; list(walk) must equal the model's subtree listing and end within |MIB|+2 requests.",
@@ -28,7 +28,7 @@ CHECKS = {
                 text="Reply scripts with out-of-subtree, repeated, decreasing and exception-valued varbinds followed by looping tail strategies; yields, follow-up requests and termination (by request count) must match the specification.",
                 note="Where the statement allows alternatives (stop or raise) both are accepted."),
     "C07": dict(level="exploration", tech="property-based testing (Hypothesis); oracle is the result/exception table of the property statement",
-                text="Generated replies (0..6 varbinds, value/NULL/exception mixes, duplicates, Reports, silence) through get/get_many on all versions and drivers; outcome compared with the documented table.",
+                text="Generated replies (0..6 varbinds, value/NULL/exception mixes, duplicates, Reports, silence) through get / get_many (asking for 0..5 OIDs) on all versions and drivers; outcome compared with the documented table.",
                 note="Trusts the reference encoder for building replies."),
     "C08": dict(level="exploration", tech="grammar-based property testing (Hypothesis): OID strings in must-accept / must-refuse / may classes; oracle = lenient reference reader + strict reference decoder of the emitted request + echo round-trip",
                 text="Strings are fed to get / get_many / GetIter; a sent datagram must carry exactly the denoted OID in canonical form, a refusal must send nothing; valid strings round-trip through the agent's echo.",
@@ -43,7 +43,7 @@ CHECKS = {
                 text="Histories of sends, encrypted replies (own salts, arbitrary padding), clear Reports, time-outs and garbage on privacy sessions; each ciphertext must decrypt to exactly the expected scoped PDU plus less than one block of padding.",
                 note="refusm.py DES/AES validated on FIPS 81 / SP 800-38A / FIPS 197 vectors at import."),
     "C12": dict(level="exploration", tech="property-based testing (Hypothesis) against hashlib implementations of RFC 3414 A.2; session keys observed through MAC validity and decryptability; malformed-material grid with outcome-class oracle",
-                text="Password lengths around 2^20 and its divisors, engine ids 0..32 octets, all key types through the raw constructor, set_keys and User/*Key; malformed keys / codes / empty passwords must raise an Exception.",
+                text="Password lengths around 2^20 and its divisors, engine ids 0..32 octets, all key types through the raw constructor, set_keys and User/*Key; malformed keys / codes / empty passwords must raise an Exception; master / localized privacy keys of 0..64 octets are aligned to the auth digest size by User() and used so.",
                 note="Master keys of non-standard size are legal at the Rust layer (the unit tests use them); the Python key classes pad."),
     "C13": dict(level="exploration", tech="property-based agent personalities and session histories (Hypothesis) against a model of the session's view of (engine id, boots, time)",
                 text="Discovery / given engine id x with / refresh() / none x sync / async x all security levels: every message's USM header, MAC and ciphertext must follow the model; foreign-engine replies must be dropped.",
@@ -52,7 +52,7 @@ CHECKS = {
                 text="Sequences of up to 2000 (quick) / 10^5 (thorough) sends with interleaved receives, time-outs, boots changes and set_keys; salts must be 8 octets, advance by one, never repeat per installation; marker arcs never appear outside msgData.",
                 note="Counter wrap-around is out of reach (random private seed)."),
     "C15": dict(level="exploration", engine=E2, tech="property-based testing (proptest) + exhaustive enumeration of 1..3-octet INTEGERs and boundary neighbourhoods; oracle = independent minimal encoder (byte equality) and round-trip",
-                text="Every i64 of 1..2 (quick) / 1..3 (thorough) content octets and boundary neighbourhoods exhaustively, random i64, OIDs, OCTET STRINGs and v1/v2c/v3 request messages: encode == independent minimal encoder, decode(encode(x)) == x.",
+                text="Every i64 of 1..2 (quick) / 1..3 (thorough) content octets and boundary neighbourhoods exhaustively, random i64, OIDs, OCTET STRINGs and v1/v2c/v3 request messages: encode == independent minimal encoder, decode(encode(x)) == x; scoped PDUs through the library's DES / AES encrypt -> decrypt -> decode give the PDU back, ciphertext length = reference length + < 1 block.",
                 note="Runs inside a mirror of the crate compiled from /repo/src; if the harness no longer builds the check is inconclusive (exit 2)."),
     "C16": dict(level="exploration", engine=E2, tech="metamorphic property testing (proptest) + coverage-guided fuzzing (libFuzzer/ASan): from_ber(x||s) == (s, from_ber(x)); trailing bytes and nested length overruns must be rejected",
                 text="(x, s) pairs over all decoders and SnmpValue with suffixes biased to what an over-reading decoder would swallow; whole messages with appended bytes and inner lengths raised past their parent.",
@@ -61,10 +61,10 @@ CHECKS = {
                 text="Requests grown to target sizes around 127/128, 255/256 and the buffer capacity on every configuration: either one strictly decodable datagram or SnmpEncodeError with nothing sent, follow-up requests unaffected; Buffer ops compared with a shadow model after every step.",
                 note="CAP read from src/buf/buffer.rs; random id widths give a few octets of slack in which either branch is accepted."),
     "C18": dict(level="fault_enumeration", tech="generated arrival schedules (Hypothesis) executed in parallel worker processes; wall-clock oracle with slack and triple confirmation",
-                text="Schedules of non-matching datagrams and early/late replies against sync and async sessions; a timely reply must be delivered, otherwise TimeoutError within T + slack; late replies must not be delivered.",
+                text="Schedules of non-matching datagrams and early/late replies against sync and async sessions; a timely reply must be delivered, otherwise TimeoutError within T + slack; late replies must not be delivered; a call that does not return within 120 s is reported as call-never-returned.",
                 note="The only wall-clock oracle: overruns must reproduce in two isolated re-runs; disagreement is logged as scheduling noise."),
     "C19": dict(level="exploration", tech="property-based testing (Hypothesis) of call-time sequences + bounded-exhaustive DFS with the real get_timeout as transition function; invariant oracle from exact rational interval",
-                text="Generated and exhaustively enumerated timestamp sequences against the real RPSPolicer; invariants delay<=I and window spans >(k-1)I checked over all pairs in O(n); sessions must consult the policer once per request.",
+                text="Generated and exhaustively enumerated timestamp sequences against the real RPSPolicer; invariants delay<=I and window spans >(k-1)I checked over all pairs in O(n); sessions must consult the policer once per request, and sync / async sessions built with limit_rps=R must take longer than (k-1)/R for k+1 requests.",
                 note="Assumes a monotonic clock and sequential callers as the property states."),
 }
 
@@ -103,7 +103,7 @@ m = {
         {"name": "rsfuzz", "path": "rs/fuzz", "serves_properties": ["C01", "C16", "C17"], "kind_free_text": "cargo-fuzz (libFuzzer + ASan) targets over the mirror crate"},
     ],
     "checks": checks,
-    "notes": "All checks: ./check <ID> [--tier quick|thorough] [--replay FILE]; VERIF_SEED seeds every generator. Exit 0 held / 1 violation / 2 inconclusive (build or harness failure).",
+    "notes": "All checks: ./check <ID> [--tier quick|thorough] [--replay FILE]; VERIF_SEED seeds every generator. Exit 0 held / 1 violation / 2 inconclusive (build failure, harness fault, or a generated case stuck for more than 300 s). An exception raised by the library itself that no check anticipated is a violation (library-raised:*), one raised by harness code is exit 2.",
     "not_applicable": na,
 }
 json.dump(m, open(os.path.join(V, "MANIFEST.json"), "w"), indent=1)
